@@ -319,8 +319,30 @@ func desugarClamps(p *Prog) int {
 			return r
 		}
 		cmpOf := func(is *ast.IfStmt) *ast.BinaryExpr {
-			be, _ := ast.Unparen(is.Cond).(*ast.BinaryExpr)
-			return be
+			e := ast.Unparen(is.Cond)
+			neg := false
+			for {
+				u, ok := e.(*ast.UnaryExpr)
+				if !ok || u.Op != token.NOT {
+					break
+				}
+				neg = !neg
+				e = ast.Unparen(u.X)
+			}
+			be, _ := e.(*ast.BinaryExpr)
+			if be == nil || !neg {
+				return be
+			}
+			// !(a < b) is a >= b
+			nop, ok := negOp[be.Op]
+			if !ok {
+				return nil
+			}
+			nb := &ast.BinaryExpr{X: be.X, OpPos: be.OpPos, Op: nop, Y: be.Y}
+			if tv, ok := info.Types[be]; ok {
+				info.Types[nb] = tv
+			}
+			return nb
 		}
 		// how often the function assigns each local (to tell an accumulator from a value that is set once)
 		assignCount := map[types.Object]int{}
@@ -416,10 +438,20 @@ func desugarClamps(p *Prog) int {
 				if is.Else != nil || body.Tok != token.ASSIGN {
 					return nil
 				}
-				// clamp of the variable itself
-				if is.Init == nil && (same(be.X, x) || same(be.Y, x)) {
+				// clamp of the variable itself (an init statement of the if, `if limit := m; x > limit`, is kept before it)
+				if same(be.X, x) || same(be.Y, x) {
+					withInit := func(r *repl) *repl {
+						if r != nil && is.Init != nil {
+							r.stmts = append([]ast.Stmt{is.Init}, r.stmts...)
+							r.eatsPrev = false
+						}
+						return r
+					}
+					if is.Init != nil {
+						prev = nil
+					}
 					if be.Op == token.EQL && unsigned(x) && constIs(body.Rhs[0], 1) && ((same(be.X, x) && constIs(be.Y, 0)) || (same(be.Y, x) && constIs(be.X, 0))) {
-						return &repl{stmts: []ast.Stmt{&ast.AssignStmt{Lhs: []ast.Expr{x}, TokPos: body.TokPos, Tok: token.ASSIGN, Rhs: []ast.Expr{builtin("max", is.Cond.Pos(), clone(x), body.Rhs[0], x)}}}}
+						return withInit(&repl{stmts: []ast.Stmt{&ast.AssignStmt{Lhs: []ast.Expr{x}, TokPos: body.TokPos, Tok: token.ASSIGN, Rhs: []ast.Expr{builtin("max", is.Cond.Pos(), clone(x), body.Rhs[0], x)}}}})
 					}
 					if name := selector(be, body.Rhs[0], x); name != "" {
 						// X = V just before: the clamp of that value, in one statement
@@ -427,7 +459,7 @@ func desugarClamps(p *Prog) int {
 							same(pa.Lhs[0], x) && !mentions(pa.Rhs[0], x) && !mentions(body.Rhs[0], x) && intTyped(pa.Rhs[0]) {
 							return &repl{stmts: []ast.Stmt{&ast.AssignStmt{Lhs: []ast.Expr{pa.Lhs[0]}, TokPos: pa.TokPos, Tok: pa.Tok, Rhs: []ast.Expr{builtin(name, is.Cond.Pos(), pa.Rhs[0], body.Rhs[0], x)}}}, eatsPrev: true}
 						}
-						return &repl{stmts: []ast.Stmt{&ast.AssignStmt{Lhs: []ast.Expr{x}, TokPos: body.TokPos, Tok: token.ASSIGN, Rhs: []ast.Expr{builtin(name, is.Cond.Pos(), clone(x), body.Rhs[0], x)}}}}
+						return withInit(&repl{stmts: []ast.Stmt{&ast.AssignStmt{Lhs: []ast.Expr{x}, TokPos: body.TokPos, Tok: token.ASSIGN, Rhs: []ast.Expr{builtin(name, is.Cond.Pos(), clone(x), body.Rhs[0], x)}}}})
 					}
 					return nil
 				}
